@@ -351,6 +351,23 @@ func RunCrash(cfg CrashCfg, t *Trace, seg int) int {
 				}
 			}
 		}
+		// grow every file the history knew again and read what lies beyond its recovered size: bytes that were cut off before
+		// the crash (and blocks a half-done truncation has not freed) must read as zeros
+		nreg := 0
+		for _, o := range g2.objs {
+			if o.kind != 1 || nreg >= 4 || s2.Wedged {
+				continue
+			}
+			nreg++
+			c := NewCall("SETATTR")
+			c.Fh, c.SetSize, c.Size = o.fh, true, 700*4096
+			g2.emit(c)
+			for _, off := range []int{0, 2 * 4096, 4*4096 + 100, 528 * 4096, 598 * 4096} {
+				r := NewCall("READ")
+				r.Fh, r.Off, r.Cnt = o.fh, off, 6*4096
+				g2.emit(r)
+			}
+		}
 		for n := 0; n < 25 && !s2.Wedged; n++ {
 			g2.step()
 		}
